@@ -1,6 +1,6 @@
 //! C09 obligations: `RangeSet::from` + `contains` is exact membership.
 use super::super::*;
-use std::net::Ipv4Addr;
+use std::net::{Ipv4Addr, Ipv6Addr};
 use std::ops::RangeInclusive;
 
 /// For N fully symbolic ranges lo_i..=hi_i (lo_i <= hi_i as the literal lexers
@@ -116,6 +116,49 @@ fn range_set_ipv4__membership_n2() {
 #[kani::unwind(6)]
 fn range_set_ipv4__membership_n3() {
     range_set_ipv4::<3>()
+}
+
+/// Same contract on the IPv6 instantiation (numeric order of the 128-bit address).
+fn range_set_ipv6<const N: usize>() {
+    let mut v: Vec<RangeInclusive<Ipv6Addr>> = Vec::with_capacity(N);
+    let mut los = [0u128; N];
+    let mut his = [0u128; N];
+    let mut i = 0;
+    while i < N {
+        let lo: u128 = kani::any();
+        let hi: u128 = kani::any();
+        kani::assume(lo <= hi);
+        los[i] = lo;
+        his[i] = hi;
+        v.push(Ipv6Addr::from(lo)..=Ipv6Addr::from(hi));
+        i += 1;
+    }
+    let x: u128 = kani::any();
+    let set = RangeSet::from(v);
+    let got = set.contains(&Ipv6Addr::from(x));
+    let mut want = false;
+    let mut i = 0;
+    while i < N {
+        want = want || (los[i] <= x && x <= his[i]);
+        i += 1;
+    }
+    assert!(got == want, "addr in the brace list <=> some listed range contains addr (numeric IPv6 order)");
+    kani::cover!(got);
+    kani::cover!(!got);
+    std::mem::forget(set);
+}
+
+#[kani::proof]
+// unwind 10: Ipv6Addr::cmp compares the eight 16-bit segments in a slice loop
+#[kani::unwind(10)]
+fn range_set_ipv6__membership_n1() {
+    range_set_ipv6::<1>()
+}
+
+#[kani::proof]
+#[kani::unwind(10)]
+fn range_set_ipv6__membership_n2() {
+    range_set_ipv6::<2>()
 }
 
 /// from_iter is `from(collect())`.
